@@ -66,7 +66,7 @@ def labels(draw, n, kind=None, order=None, kinds="ifs"):
 @st.composite
 def history(draw, labs_per_dim):
     """how the array came about (see core.build): a history must not change any answer"""
-    mode = draw(st.sampled_from(["none", "none", "none", "warm", "slice", "relabel", "transposed", "fortran", "copyof", "renamed"]))
+    mode = draw(st.sampled_from(["none", "none", "none", "warm", "slice", "relabel", "transposed", "fortran", "copyof", "renamed", "reused", "reused"]))
     h = {"mode": mode}
     if mode == "renamed":
         h["via"] = draw(st.sampled_from(["dims", "axis-names"]))
